@@ -734,9 +734,9 @@ func showInJSON(env *env, out io.Writer, value any) error {
 			s = "null"
 			break
 		}
-		if b, ok := value.([]byte); ok {
+		if v.Type().Elem().Kind() == reflect.Uint8 {
 			w := newStringWriter(out)
-			return escapeBytes(w, b, true)
+			return escapeBytes(w, v.Bytes(), true)
 		}
 		fallthrough
 	case reflect.Array:
